@@ -1,6 +1,7 @@
 """C02 — the type fixed at compile time is the type produced at run time.
 
-(a) every expression of the vocabulary product (depth 1; depth 2 over one atom per type/nullness in thorough): the
+(a) every expression of the vocabulary product (depth 1; depth 2 over one atom per type/nullness in thorough) and
+    of the operand-kind product (typed signatures x constant / variable / temporary / element / item / result): the
     static type taken while the context is parsing vs the type of the evaluated value and the typeof() text;
 (b) every program of <= 3 (quick) / 4 (thorough) statements of an alphabet in which variables change type, are
     $-constrained, are loop iterators, are used by methods selected at compile time and functions are redefined:
@@ -34,6 +35,14 @@ def expr_gen(tier):
             ops = [op_ctx(), op_run(c01.PRELUDE)] + [op_setvar(k, v) for k, v in c01.SETVARS]
             ops += [op_expr(e), op_run("print typeof(%s);" % e), op_out()]
             yield Case("x%d" % n, ops, {"kind": "expr", "e": e, "tag": tag})
+            n += 1
+        # every typed signature with each argument as constant / variable / temporary / table element / tuple item / function result
+        from . import c05
+        kpre = c05.kprelude()
+        for kc in c05.kinds_gen(tier)():
+            e = kc.meta["e"]
+            ops = [op_ctx(), op_run(kpre), op_expr(e), op_run("print typeof(%s);" % e), op_out()]
+            yield Case("x%d" % n, ops, {"kind": "expr", "e": e, "tag": "kinds:" + kc.meta["sig"]})
             n += 1
         if tier == "thorough":
             atoms = ["2", "vni", "1.5", "vnd", '"a"', "vns", "true", "vnt", "vc", "vu", "vtab", "vr", "vb", "f1(1)"]
